@@ -955,6 +955,31 @@ func genReceiver(c *lib.Ctx, rng *rand.Rand) []c08case {
 		add("recv:no-init", m, fresh+"/video/0.cmfv", initSeg, nil)
 		add("recv:no-init", m, fresh+"/video/0.cmfv", append(append([]byte{}, initSeg...), seg0...), nil)
 	}
+	// wrap-back bodies: a later box claims a size that wraps the uint32 parse position exactly back
+	// onto the start of an earlier box; the parser must refuse it (a position sum computed in 32 bits
+	// would walk the same boxes for ever)
+	{
+		base := newCh()
+		box := func(size uint32, typ string, n int) []byte { return rawbox(size, typ, make([]byte, n)) }
+		cat := func(bs ...[]byte) []byte {
+			var o []byte
+			for _, b := range bs {
+				o = append(o, b...)
+			}
+			return o
+		}
+		bodies := [][]byte{
+			cat(box(8, "free", 0), box(0xfffffff8, "free", 0)),                          // back to offset 0
+			cat(box(16, "free", 8), box(12, "free", 4), box(uint32(1<<32-28), "free", 0)),    // back to box A
+			cat(box(16, "free", 8), box(12, "free", 4), box(uint32(1<<32-28+16), "free", 0)), // back to box B
+			cat(box(16, "styp", 8), box(12, "free", 4), box(uint32(1<<32-28+16), "moof", 8)),
+		}
+		for _, m := range []string{"PUT", "POST"} {
+			for _, b := range bodies {
+				add("recv:wrap-back", m, base+"/video/4.cmfv", b, nil)
+			}
+		}
+	}
 	// size fields of 2^31 and 2^32-1: the chunk parser allocates that much before it reads (seconds
 	// of wall time and gigabytes per request), so only the thorough tier sends them
 	{
